@@ -12,6 +12,7 @@ import (
 	"mime"
 	"mime/multipart"
 	"net/http"
+	"sort"
 	"strings"
 	"sync"
 
@@ -40,6 +41,8 @@ type ReqLog struct {
 	Declared  map[string]string      `json:"declared,omitempty"` // variables the request declares, with types
 	Used      []string               `json:"used,omitempty"`     // variables it uses
 	Files     map[string]string      `json:"files,omitempty"`    // multipart: variable path -> "name:content"
+	Passed    map[string]string      `json:"passed"`             // variable values received, rendered canonically
+	Defaults  map[string]string      `json:"defaults"`           // default values the request declares, rendered canonically
 }
 
 type RootSel struct {
@@ -311,7 +314,10 @@ func parseOnly(q string) (*ast.QueryDocument, error) {
 
 // Answer evaluates one GraphQL request and returns the response object plus the log entry.
 func (s *Service) Answer(r gqlReq) (map[string]interface{}, *ReqLog) {
-	lg := &ReqLog{Svc: s.URL, Query: r.Query, Vars: r.Variables}
+	lg := &ReqLog{Svc: s.URL, Query: r.Query, Vars: r.Variables, Passed: map[string]string{}, Defaults: map[string]string{}}
+	for k, v := range r.Variables {
+		lg.Passed[k] = world.RenderArg(v, world.TypeRef{}, s.W)
+	}
 	if r.OperationName != nil {
 		lg.OpName = *r.OperationName
 	}
@@ -342,6 +348,11 @@ func (s *Service) Answer(r gqlReq) (map[string]interface{}, *ReqLog) {
 	lg.Declared = map[string]string{}
 	for _, vd := range op.VariableDefinitions {
 		lg.Declared[vd.Variable] = vd.Type.String()
+		if vd.DefaultValue != nil {
+			if v, err := vd.DefaultValue.Value(nil); err == nil {
+				lg.Defaults[vd.Variable] = world.RenderArg(v, world.TypeRef{Name: vd.Type.Name()}, s.W)
+			}
+		}
 	}
 	used := map[string]bool{}
 	usedVars(op.SelectionSet, used, map[string]bool{})
@@ -524,6 +535,77 @@ func (n *Net) RoundTrip(req *http.Request) (*http.Response, error) {
 		out, _ = json.Marshal(honest)
 	}
 	return jsonResp(200, out), nil
+}
+
+// AbsSel projects a parsed selection set to the abstract Sel trees of the specifications
+// (named fragments inlined).
+func AbsSel(ss ast.SelectionSet) []*world.Sel {
+	out := []*world.Sel{}
+	for _, sel := range ss {
+		switch x := sel.(type) {
+		case *ast.Field:
+			out = append(out, &world.Sel{K: "F", Key: x.Alias, Name: x.Name, Args: map[string]world.ArgExpr{}, Dirs: []world.Dir{}, Sub: AbsSel(x.SelectionSet)})
+		case *ast.InlineFragment:
+			out = append(out, &world.Sel{K: "I", On: x.TypeCondition, Args: map[string]world.ArgExpr{}, Dirs: []world.Dir{}, Sub: AbsSel(x.SelectionSet)})
+		case *ast.FragmentSpread:
+			if x.Definition != nil {
+				out = append(out, &world.Sel{K: "I", On: x.Definition.TypeCondition, Args: map[string]world.ArgExpr{}, Dirs: []world.Dir{}, Sub: AbsSel(x.Definition.SelectionSet)})
+			}
+		}
+	}
+	return out
+}
+
+// StepFacts is what the receiving service's own parser and validator say about a sub-request
+// text (data independent): used for the per-translation claims of C02.
+type StepFacts struct {
+	Parses    bool              `json:"parses"`
+	Validates bool              `json:"validates"`
+	Err       string            `json:"err"`
+	Kw        string            `json:"kw"`
+	OpName    string            `json:"opName"`
+	Sel       []*world.Sel      `json:"sel"`
+	Declared  map[string]string `json:"declared"`
+	Defaults  map[string]string `json:"defaults"` // declared default values, rendered canonically
+	Used      []string          `json:"used"`
+}
+
+func (s *Service) Facts(query string) *StepFacts {
+	f := &StepFacts{Sel: []*world.Sel{}, Declared: map[string]string{}, Defaults: map[string]string{}, Used: []string{}}
+	doc, perr := gqlparser.LoadQuery(s.Schema, query)
+	if perr != nil {
+		f.Err = perr.Error()
+		if d2, e2 := parseOnly(query); e2 == nil {
+			f.Parses = true
+			doc = d2
+		} else {
+			return f
+		}
+	} else {
+		f.Parses, f.Validates = true, true
+	}
+	if len(doc.Operations) != 1 {
+		f.Validates = false
+		return f
+	}
+	op := doc.Operations[0]
+	f.Kw, f.OpName = string(op.Operation), op.Name
+	f.Sel = AbsSel(op.SelectionSet)
+	for _, vd := range op.VariableDefinitions {
+		f.Declared[vd.Variable] = vd.Type.String()
+		if vd.DefaultValue != nil {
+			if v, err := vd.DefaultValue.Value(nil); err == nil {
+				f.Defaults[vd.Variable] = world.RenderArg(v, world.TypeRef{Name: vd.Type.Name()}, s.W)
+			}
+		}
+	}
+	used := map[string]bool{}
+	usedVars(op.SelectionSet, used, map[string]bool{})
+	for v := range used {
+		f.Used = append(f.Used, v)
+	}
+	sort.Strings(f.Used)
+	return f
 }
 
 // AnswerFor evaluates one request directly (no network): used for the R7 cross-check of the
